@@ -550,7 +550,7 @@ def check_sectors(b, T, N, reglab, sg, key=(), species_blocks=None, unsafe_kinds
     return probs, ne, nsec
 
 
-def check_default_sector(terms, hskw, tf, T, N, reglab, sg, sym, sec, blocks, call):
+def check_default_sector(terms, hskw, tf, T, N, reglab, sg, sym, sec, blocks, call, via=None):
     """the same operator built in a HilbertSpace whose DEFAULT sector is set:
     sizes, matrices, and the coupling of every sector configuration."""
     probs = []
@@ -560,8 +560,17 @@ def check_default_sector(terms, hskw, tf, T, N, reglab, sg, sym, sec, blocks, ca
         s.update(kw)
         probs.append(P(msg, entry=entry, **s))
 
-    hs = make_hs(hskw, **call)
+    if via is None:
+        hs = make_hs(hskw, **call)
+    else:
+        # the same space reached by re-ordering one built in another order
+        hs = make_hs(dict(hskw, order=via), **call).with_ordering(hskw["order"])
+        sg = dict(sg, via="with_ordering")
     b = make_builder(terms, hs=hs, tf=tf)
+    for lab_, reg_ in reglab.items():
+        if hs.site_to_reg(lab_) != reg_:
+            bad("hilbertspace.with_ordering", "site %r at register %r, expected %r" % (lab_, hs.site_to_reg(lab_), reg_), kind="order")
+            return probs, 1
     cfgs = R.sector_configs(N, sym, sec, blocks)
     idx = [R.config_index(c) for c in cfgs]
     Ts = T[np.ix_(idx, idx)]
@@ -669,6 +678,16 @@ def b_cell(cell, common):
                         p4, ne4 = check_default_sector(terms, kw, tf, T, N, reglab, sg, sym, sec, bl, forms[-1])
                         probs += p4
                         ne += ne4
+                if blocks and not probs:
+                    # species interleaved among the registers, every U1U1 sector,
+                    # on a space obtained with with_ordering() from the blocked
+                    # order and from a species-mixing permutation
+                    mix = [bylreg[i] for i in shuf(N, a=3, b=2, m=7)]
+                    for _, sec, bl, forms in [s_ for s_ in secs if s_[0] == "U1U1"]:
+                        for k_, via in enumerate(("blocked", mix)):
+                            p4, ne4 = check_default_sector(terms, hskw, tf, T, N, reglab, sg, "U1U1", sec, bl, forms[k_], via=via)
+                            probs += p4
+                            ne += ne4
     except Exception as ex:
         if isinstance(ex, (AssertionError,)):
             raise
@@ -984,46 +1003,92 @@ def r_cell(cell, common):
     if hs.symmetry != sym or (sym is not None and dims is None and sym != "U1U1" and hs.sector != ref_sec):
         bad("hilbertspace.sector", "symmetry/sector parsed as %r/%r" % (hs.symmetry, hs.sector), kind="parse")
     # ---- every rank
-    seen = {}
-    for r, c in enumerate(cfgs):
-        fc = hs.rank_to_flatconfig(r)
-        ne += 1
-        if not isinstance(fc, np.ndarray) or fc.dtype != np.uint8 or fc.shape != (n,):
-            bad("hilbertspace.rank_to_flatconfig", "rank %d gives %r" % (r, fc), kind="type")
-            break
-        t = tuple(int(v) for v in fc)
-        if t in seen:
-            bad("hilbertspace.rank_to_flatconfig", "ranks %d and %d both give %r: not injective" % (seen[t], r, t), kind="not-bijective")
-            break
-        seen[t] = r
-        if t not in cfgs:
-            bad("hilbertspace.rank_to_flatconfig", "rank %d gives %r which is not in the sector" % (r, t), kind="not-in-sector")
-            break
-        if t != tuple(c):
-            bad("hilbertspace.rank_to_flatconfig", "rank %d gives %r, documented (lexicographic) order gives %r" % (r, t, c), kind="order")
-            break
-        rr = hs.flatconfig_to_rank(np.array(c, dtype=np.uint8))
-        if rr != r or not isinstance(rr, (int, np.integer)):
-            bad("hilbertspace.flatconfig_to_rank", "config %r -> rank %r (%s), expected %d" % (c, rr, type(rr).__name__, r), kind="inverse")
-            break
-        conf = hs.rank_to_config(r)
-        if list(conf.keys()) != list(exp_sites) or any(int(conf[s]) != c[reg_of[s]] for s in exp_sites):
-            bad("hilbertspace.rank_to_config", "rank %d -> %r, expected %r" % (r, conf, dict(zip(exp_sites, c))), kind="config")
-            break
-        conf2 = {s: int(c[reg_of[s]]) for s in reversed(labels)}  # other insertion order
-        if hs.config_to_rank(conf2) != r:
-            bad("hilbertspace.config_to_rank", "config %r -> rank %r, expected %d" % (conf2, hs.config_to_rank(conf2), r), kind="inverse")
-            break
-        if tuple(int(v) for v in hs.config_to_flatconfig(conf2)) != tuple(c) or hs.flatconfig_to_config(fc) != conf:
-            bad("hilbertspace.config_maps", "config <-> flatconfig inconsistent for %r" % (conf2,), kind="config")
-            break
-    # ---- a re-ordered copy keeps everything but the order
-    if not probs and cell.get("reorder"):
-        o2arg, o2spec = order_spec(cell["reorder"], labels)
+    def scan(hs_, sites_, cfgs_, **via):
+        """every rank of hs_ against the brute-force sector (configurations in
+        register order of ``sites_``, in documented rank order)."""
+        nonlocal ne
+        regs_ = {s: r for r, s in enumerate(sites_)}
+        member = set(cfgs_)
+        seen = {}
+        for r, c in enumerate(cfgs_):
+            fc = hs_.rank_to_flatconfig(r)
+            ne += 1
+            if not isinstance(fc, np.ndarray) or fc.dtype != np.uint8 or fc.shape != (n,):
+                bad("hilbertspace.rank_to_flatconfig", "rank %d gives %r" % (r, fc), kind="type", **via)
+                return
+            t = tuple(int(v) for v in fc)
+            if t in seen:
+                bad("hilbertspace.rank_to_flatconfig", "ranks %d and %d both give %r: not injective" % (seen[t], r, t), kind="not-bijective", **via)
+                return
+            seen[t] = r
+            if t not in member:
+                bad("hilbertspace.rank_to_flatconfig", "rank %d gives %r (sites %r) which is not in the sector %r" % (r, t, tuple(sites_), call_sector), kind="not-in-sector", **via)
+                return
+            if t != tuple(c):
+                bad("hilbertspace.rank_to_flatconfig", "rank %d gives %r, documented (lexicographic) order gives %r" % (r, t, c), kind="order", **via)
+                return
+            rr = hs_.flatconfig_to_rank(np.array(c, dtype=np.uint8))
+            if rr != r or not isinstance(rr, (int, np.integer)):
+                bad("hilbertspace.flatconfig_to_rank", "config %r -> rank %r (%s), expected %d" % (c, rr, type(rr).__name__, r), kind="inverse", **via)
+                return
+            conf = hs_.rank_to_config(r)
+            if list(conf.keys()) != list(sites_) or any(int(conf[s]) != c[regs_[s]] for s in sites_):
+                bad("hilbertspace.rank_to_config", "rank %d -> %r, expected %r" % (r, conf, dict(zip(sites_, c))), kind="config", **via)
+                return
+            conf2 = {s: int(c[regs_[s]]) for s in reversed(labels)}  # other insertion order
+            if hs_.config_to_rank(conf2) != r:
+                bad("hilbertspace.config_to_rank", "config %r -> rank %r, expected %d" % (conf2, hs_.config_to_rank(conf2), r), kind="inverse", **via)
+                return
+            if tuple(int(v) for v in hs_.config_to_flatconfig(conf2)) != tuple(c) or hs_.flatconfig_to_config(fc) != conf:
+                bad("hilbertspace.config_maps", "config <-> flatconfig inconsistent for %r" % (conf2,), kind="config", **via)
+                return
+
+    scan(hs, exp_sites, cfgs)
+    # ---- a re-ordered copy is the SAME space (sites, dims, species, symmetry,
+    # sector) in another register order: scanned in full again, with the
+    # sector membership decided by species / charge in the NEW order
+    nre = 0
+    for ro in ([] if probs else _l(cell.get("reorder") or [])):
+        o2arg, o2spec = order_spec(ro, labels)
         h2 = hs.with_ordering(o2arg)
         e2 = R.ordered_sites(exp_sites, o2spec)
-        if tuple(h2.sites) != tuple(e2) or h2.symmetry != hs.symmetry or h2.sector != hs.sector or h2.size != hs.size:
-            bad("hilbertspace.with_ordering", "with_ordering(%s): sites %r expected %r; size %r vs %r" % (cell["reorder"], h2.sites, e2, h2.size, hs.size), kind="reorder")
+        via = dict(via="with_ordering")
+        if tuple(h2.sites) != tuple(e2) or h2.symmetry != hs.symmetry or h2.sector != hs.sector or h2.size != hs.size or h2.nsites != n:
+            bad("hilbertspace.with_ordering", "with_ordering(%s): sites %r expected %r; sector %r vs %r; size %r vs %r" % (ro, h2.sites, e2, h2.sector, hs.sector, h2.size, hs.size), kind="reorder")
+            break
+        if dims is not None:
+            cf2 = R.mixed_radix_configs([dmap[s_] for s_ in e2])
+            if [int(v) for v in h2.sizes] != [dmap[s_] for s_ in e2]:
+                bad("hilbertspace.sizes", "with_ordering(%s): sizes %r" % (ro, list(h2.sizes)), kind="sizes", **via)
+        else:
+            bl2 = blocks
+            if spmap is not None:
+                bl2 = (tuple(r for r, s_ in enumerate(e2) if spmap[s_] == "a"), tuple(r for r, s_ in enumerate(e2) if spmap[s_] == "b"))
+            cf2 = R.sector_configs(n, sym, ref_sec, bl2)
+        if len(cf2) != want_size:
+            raise AssertionError("reference size after reordering")
+        scan(h2, e2, cf2, **via)
+        nre += 1
+        if probs:
+            break
+        # and once more, back through a second re-ordering
+        if ro != "sorted":
+            h3 = h2.with_ordering(True)
+            e3 = sorted(labels)
+            if dims is not None:
+                cf3 = R.mixed_radix_configs([dmap[s_] for s_ in e3])
+            else:
+                bl3 = blocks
+                if spmap is not None:
+                    bl3 = (tuple(r for r, s_ in enumerate(e3) if spmap[s_] == "a"), tuple(r for r, s_ in enumerate(e3) if spmap[s_] == "b"))
+                cf3 = R.sector_configs(n, sym, ref_sec, bl3)
+            if tuple(h3.sites) != tuple(e3) or h3.size != want_size:
+                bad("hilbertspace.with_ordering", "with_ordering(%s).with_ordering(True): sites %r size %r" % (ro, h3.sites, h3.size), kind="reorder")
+                break
+            scan(h3, e3, cf3, via="with_ordering-twice")
+            if probs:
+                break
+    if not probs and cell.get("reorder"):
         try:
             hs.set_ordering(None)
             bad("hilbertspace.set_ordering", "ordering mutated in place", kind="reorder")
@@ -1031,7 +1096,7 @@ def r_cell(cell, common):
             pass
     if probs:
         return table.bad(probs)
-    return table.ok(key=core.digest(core.jsonable(cell)), nontrivial=want_size > 1, outcome="%s size=%s blocked=%d" % (sym or ("mixed" if dims else "none"), "1" if want_size == 1 else "2-8" if want_size <= 8 else ">8", int(bool(getattr(hs, "needs_blocking", False)))), evals=ne)
+    return table.ok(key=core.digest(core.jsonable(cell)), nontrivial=want_size > 1, outcome="%s size=%s blocked=%d reordered=%d" % (sym or ("mixed" if dims else "none"), "1" if want_size == 1 else "2-8" if want_size <= 8 else ">8", int(bool(getattr(hs, "needs_blocking", False))), nre), evals=ne)
 
 
 def rp_cell(cell, common):
@@ -1759,6 +1824,9 @@ def connected_graphs_small(nmax):
     return out
 
 
+REORDERS = ("sorted", "seq_rev", "seq_shuf", "key_desc", "key_last", "none")
+
+
 def rank_cells(nmax, nmax_species, nmax_mixed, quick):
     cells = []
     sups = ("id", "rev", "shuf")
@@ -1782,8 +1850,9 @@ def rank_cells(nmax, nmax_species, nmax_mixed, quick):
                     c = dict(base, **sc)
                     if sup == "id" and o == "none" and lab == "int" and not sc:
                         cells.append(dict(c, form="int"))
-                    if o == "seq_rev" and sc.get("sym") in (None, "U1"):
-                        c["reorder"] = "sorted"
+                    if o in ("seq_rev", "none") and (sup, o) != ("id", "none"):
+                        # every kind of order option, rotating over the cells
+                        c["reorder"] = [REORDERS[len(cells) % len(REORDERS)], REORDERS[(len(cells) + 3) % len(REORDERS)]]
                     if sup == "shuf" and o == "none" and not sc:
                         c["form"] = "dict"
                     cells.append(c)
@@ -1804,9 +1873,13 @@ def rank_cells(nmax, nmax_species, nmax_mixed, quick):
                             if quick and sf == "dict" and lab != "int":
                                 continue
                             c = dict(n=n, lab=lab, sup=sup, ord=o, sym="U1U1", sec=[ka, kb], secform=sf, species=list(bits), spform="callable" if (ka + kb) % 2 else "dict", symarg=int(sf == "explicit" or ka == 0))
+                            if sf == "pair" or not quick:
+                                # the re-ordered space must keep the species: every
+                                # order option, sector membership decided by species
+                                c["reorder"] = list(REORDERS) if (lab == "int" or not quick) else [REORDERS[len(cells) % len(REORDERS)]]
                             cells.append(c)
                             if sf == "pair" and lab == "int":
-                                cells.append(dict(c, percall=1))
+                                cells.append(dict({k_: v_ for k_, v_ in c.items() if k_ != "reorder"}, percall=1))
     # preset orderings on (species, position) labels
     for n in range(2, nmax_species + 2):
         labs = labels_for("spin", n)
@@ -1819,14 +1892,14 @@ def rank_cells(nmax, nmax_species, nmax_mixed, quick):
                     cells.append(dict(n=n, lab="spin", sup=sup, ord=o, sym="U1", sec=k, secform="infer"))
                 for ka in range(na + 1):
                     for kb in range(n - na + 1):
-                        cells.append(dict(n=n, lab="spin", sup=sup, ord=o, sym="U1U1", sec=[ka, kb], secform="pair", species=bits, spform="callable", symarg=0))
+                        cells.append(dict(n=n, lab="spin", sup=sup, ord=o, sym="U1U1", sec=[ka, kb], secform="pair", species=bits, spform="callable", symarg=0, reorder=["interleaved", "blocked", "seq_shuf", "key_last", "seq_rev"]))
     # mixed radix
     for n in range(1, nmax_mixed + 1):
         for dims in itertools.product((1, 2, 3), repeat=n):
             if set(dims) == {2}:
                 continue
             for lab, sup, o, form in (("int", "id", "none", "list"), ("str", "shuf", "sorted", "dict"), ("tuple", "rev", "seq_shuf", "list")):
-                cells.append(dict(n=n, lab=lab, sup=sup, ord=o, dims=list(dims), form=form))
+                cells.append(dict(n=n, lab=lab, sup=sup, ord=o, dims=list(dims), form=form, reorder=[REORDERS[(sum(dims) + n) % 5]]))
             cells.append(dict(n=n, lab="int", sup="id", ord="none", dims=list(dims), sym="U1", sec=0, secform="infer"))
     return cells
 
